@@ -28,6 +28,8 @@ class CAT(sp.Function):
 # repository helpers that are deliberately kept as black boxes (their bodies are the
 # Biot-Savart kernels; the rules reason about which filaments they are applied to)
 KERNELS = {"_compute_finite_vortex", "_compute_semi_infinite_vortex", "_compute_finite_vortex_deriv1", "_compute_finite_vortex_deriv2", "_compute_semi_infinite_vortex_deriv"}
+MIN2 = sp.Function("MIN2")  # element-wise minimum / maximum of two values (uninterpreted, commutative)
+MAX2 = sp.Function("MAX2")
 SUB = sp.Function("SUB")  # SUB(expr, subscript text): a slice / element of an array-valued expression
 EINSUM = sp.Function("EINSUM")  # uninterpreted contraction EINSUM(spec, A, B)
 SIG = sp.Function("SIG")  # uninterpreted linear reduction over the panel / element axes
@@ -807,6 +809,10 @@ class SymX(Domain):
                 return CROSS(ads[0], ads[1])
             if short in ("max", "amax") and ads and ads[0] is not None and len(args) == 1 and not node.keywords:
                 return MAXF(ads[0]) if has_array(ads[0], self.table) else ads[0]
+            if short in ("minimum", "maximum", "fmin", "fmax") and len(ads) == 2 and None not in ads and not any(isinstance(a_, sp.MatrixBase) for a_ in ads):
+                return (MIN2 if short in ("minimum", "fmin") else MAX2)(*sorted(ads, key=sp.default_sort_key))
+            if short == "clip" and len(ads) == 3 and None not in ads and not any(isinstance(a_, sp.MatrixBase) for a_ in ads):
+                return MIN2(*sorted([MAX2(*sorted([ads[0], ads[1]], key=sp.default_sort_key)), ads[2]], key=sp.default_sort_key))
             if short == "outer" and len(ads) == 2 and None not in ads and not any(isinstance(a_, sp.MatrixBase) for a_ in ads):
                 # outer product with a vector of ones: broadcasting copy along a new axis
                 if ads[1] == 1:
